@@ -63,6 +63,35 @@ extern void     vh_witness(const char *name);
 #define __CPROVER_assert(c, m) CHECK(c, m)
 #endif
 
+/* SCHECK: a check that keeps its full strength in an allocation-fault pass (memory safety, locks, exactly-once
+ * completion, leaks, the reported result of the failing call).  In a fault pass (-DVH_FAULTPASS, harness TU only) a plain
+ * CHECK - a functional expectation written for the fault-free library, e.g. "the message is delivered" - stops
+ * applying once the injected fault has fired: the documented best-effort loss makes it legitimately false. */
+#ifdef VH_FAULTPASS
+extern int env_alloc_failed, env_msg_failed, env_idmap_failed;
+#define VH_FAULT_FIRED (env_alloc_failed || env_msg_failed || env_idmap_failed)
+#if VH_NATIVE
+#define SCHECK(c, msg)                                         \
+	do {                                                   \
+		if (!(c))                                      \
+			vh_check_fail(msg, __FILE__, __LINE__); \
+	} while (0)
+#undef CHECK
+#define CHECK(c, msg)                                          \
+	do {                                                   \
+		if (!VH_FAULT_FIRED && !(c))                   \
+			vh_check_fail(msg, __FILE__, __LINE__); \
+	} while (0)
+#else
+#define SCHECK(c, msg) __CPROVER_assert((c), "PROP " msg)
+#undef CHECK
+#define CHECK(c, msg) __CPROVER_assert(VH_FAULT_FIRED || (c), "PROP " msg)
+#endif
+#else
+#define SCHECK(c, msg) CHECK(c, msg)
+#define VH_FAULT_FIRED 0
+#endif
+
 /* fill a byte buffer with symbolic bytes */
 #define ND_BYTES(buf, n)                                  \
 	do {                                              \
